@@ -441,6 +441,20 @@ impl Condition for NumericCondition {
                     unreachable!("IN operation should not be used with NumericCondition")
                 }
             }
+        } else if let Some(f) = accessor.get_field_as_f64(&self.field) {
+            // Float payload values compare the same way as typed f64 columns in evaluate_at
+            let rhs = self.value as f64;
+            match self.operation {
+                CompareOp::Gt => f > rhs,
+                CompareOp::Gte => f >= rhs,
+                CompareOp::Lt => f < rhs,
+                CompareOp::Lte => f <= rhs,
+                CompareOp::Eq => f == rhs,
+                CompareOp::Neq => f != rhs,
+                CompareOp::In => {
+                    unreachable!("IN operation should not be used with NumericCondition")
+                }
+            }
         } else {
             false
         }
